@@ -2,6 +2,7 @@
 # usage: confirm_seed.sh Cxx   -- confirms seeds A, B (and extras) of /tmp/seed/Cxx in a fresh scratch worktree of /repo HEAD
 # writes /verif/seeded/<Cxx>-<variant>/{patch.diff,demo/,meta.json,confirm.log}
 P=$1
+ONLY=$2
 SRC=/tmp/seed/$P/_seed
 WT=/tmp/confirm/$P
 mkdir -p /tmp/confirm
@@ -17,9 +18,20 @@ for V in $(ls $SRC); do
   : > $LOG
   git checkout -q -- . ; git clean -fdq -e _seed -e target
   applies=no; suite=skipped; demo_with=skipped; demo_without=skipped
-  if git apply --check $SRC/$V/patch.diff 2>>$LOG; then
+  if [ -n "$ONLY" ] && [ "$ONLY" != "$V" ]; then continue; fi
+  PATCH=$SRC/$V/patch.diff
+  if ! git apply --check $PATCH 2>>$LOG; then
+    # the tree moved on since the seed was written (later fix: commits): rebase the patch with fuzz and regenerate it
+    if patch -p1 --no-backup-if-mismatch -s -f -i $PATCH >>$LOG 2>&1; then
+      git diff > /tmp/confirm/$P-$V.rebased.diff
+      git checkout -q -- .
+      PATCH=/tmp/confirm/$P-$V.rebased.diff
+      echo "patch rebased onto $(git -C /repo rev-parse --short HEAD)" >> $LOG
+    fi
+  fi
+  if git apply --check $PATCH 2>>$LOG; then
     applies=yes
-    git apply $SRC/$V/patch.diff
+    git apply $PATCH
     if cargo test --offline >>$LOG 2>&1; then suite=pass; else suite=FAIL; fi
     if [ -f _seed/$V/demo/run.sh ]; then
       if sh _seed/$V/demo/run.sh >>$LOG 2>&1; then demo_with=pass-UNEXPECTED; else demo_with=fail-as-expected; fi
@@ -28,7 +40,7 @@ for V in $(ls $SRC); do
     fi
   fi
   git checkout -q -- . ; git clean -fdq -e _seed -e target
-  cp $SRC/$V/patch.diff $OUT/patch.diff
+  cp $PATCH $OUT/patch.diff
   rm -rf $OUT/demo; cp -r $SRC/$V/demo $OUT/demo 2>/dev/null
   cp $SRC/$V/notes.md $OUT/notes.md 2>/dev/null
   echo "$P $V applies=$applies suite=$suite demo_with_change=$demo_with demo_without_change=$demo_without head=$(git -C /repo rev-parse --short HEAD)" | tee $OUT/confirm.txt
